@@ -233,44 +233,65 @@ func c17AccessorsSel(c *Ctx, only map[string]bool) {
 	r.Expect("C17-K1-constructors", 25)
 	// printer table
 	printer := map[int64]string{}
-	if g := c.P.Func(v4pkg + ".getOption"); g != nil {
-		for _, b := range g.Blocks {
-			iff := ifOf(b)
-			if iff == nil {
+	if g0 := c.P.Func(v4pkg + ".getOption"); g0 != nil {
+		// the table is the switch over the option-code parameter of getOption, or of an unexported function of the
+		// package that getOption calls for the decoder (decoderFor(code, data, vendor) returning one decoder per case)
+		tables := []*ssa.Function{g0}
+		allInstrs(g0, func(in ssa.Instruction) {
+			if ci, ok := in.(ssa.CallInstruction); ok {
+				if cal := ci.Common().StaticCallee(); cal != nil && pkgPathOf(cal) == v4pkg && cal.Blocks != nil && cal != g0 {
+					tables = append(tables, cal)
+				}
+			}
+		})
+		for _, g := range tables {
+			var codeParam ssa.Value
+			for _, pa := range g.Params {
+				if namedIs(pa.Type(), v4pkg, "OptionCode") && codeParam == nil {
+					codeParam = pa
+				}
+			}
+			if codeParam == nil {
 				continue
 			}
-			bo, ok := iff.Cond.(*ssa.BinOp)
-			if !ok {
-				continue
-			}
-			var k int64
-			var okk bool
-			if bo.X == ssa.Value(g.Params[0]) {
-				k, okk = optCodeConst(bo.Y)
-			} else if bo.Y == ssa.Value(g.Params[0]) {
-				k, okk = optCodeConst(bo.X)
-			}
-			if !okk {
-				continue
-			}
-			// the case body: first block reachable from the true edge that allocates a named decoder
-			seen := map[*ssa.BasicBlock]bool{}
-			cur := b.Succs[0]
-			for i := 0; i < 4 && cur != nil && !seen[cur]; i++ {
-				seen[cur] = true
-				found := false
-				for _, in := range cur.Instrs {
-					if al, ok := in.(*ssa.Alloc); ok && al.Heap {
-						if _, named := al.Type().(*types.Pointer).Elem().(*types.Named); named && printer[k] == "" {
-							printer[k] = typeTag(al.Type())
-							found = true
+			for _, b := range g.Blocks {
+				iff := ifOf(b)
+				if iff == nil {
+					continue
+				}
+				bo, ok := iff.Cond.(*ssa.BinOp)
+				if !ok {
+					continue
+				}
+				var k int64
+				var okk bool
+				if bo.X == codeParam {
+					k, okk = optCodeConst(bo.Y)
+				} else if bo.Y == codeParam {
+					k, okk = optCodeConst(bo.X)
+				}
+				if !okk {
+					continue
+				}
+				// the case body: first block reachable from the true edge that allocates a named decoder
+				seen := map[*ssa.BasicBlock]bool{}
+				cur := b.Succs[0]
+				for i := 0; i < 4 && cur != nil && !seen[cur]; i++ {
+					seen[cur] = true
+					found := false
+					for _, in := range cur.Instrs {
+						if al, ok := in.(*ssa.Alloc); ok && al.Heap {
+							if _, named := al.Type().(*types.Pointer).Elem().(*types.Named); named && printer[k] == "" {
+								printer[k] = typeTag(al.Type())
+								found = true
+							}
 						}
 					}
+					if found || len(cur.Succs) != 1 {
+						break
+					}
+					cur = cur.Succs[0]
 				}
-				if found || len(cur.Succs) != 1 {
-					break
-				}
-				cur = cur.Succs[0]
 			}
 		}
 	} else {
